@@ -101,29 +101,32 @@ pub fn stored_json(cnf: &Cnf) -> Value {
 
 /// observation itself must not bring the recorder down: a panic while reading the solver state
 /// (e.g. a stack that was popped too far) is logged as a panic event
-fn observe(s: &SATSolver, nv: usize, ev: &mut Value) {
+fn observe(s: &SATSolver, nv: usize, emb: &[usize], ev: &mut Value) {
     let mut tmp = ev.clone();
-    match guarded(|| observe_raw(s, nv, &mut tmp)) {
+    match guarded(|| observe_raw(s, nv, emb, &mut tmp)) {
         Ok(()) => *ev = tmp,
         Err(m) => ev["panic"] = json!(format!("while observing: {m}")),
     }
 }
 
-fn observe_raw(s: &SATSolver, nv: usize, ev: &mut Value) {
+fn observe_raw(s: &SATSolver, nv: usize, emb: &[usize], ev: &mut Value) {
+    // emb[v] = the label on which variable v of the recorded (compact) CNF sits in the real solver; empty = identity
+    let lab = |v: usize| if emb.is_empty() { v } else { emb[v] };
     let m = s.verif_model();
     ev["m"] = json!((0..nv)
-        .map(|v| match m.get(VarLabel::new_usize(v)) {
+        .map(|v| match m.get(VarLabel::new_usize(lab(v))) {
             None => -1,
             Some(false) => 0,
             Some(true) => 1,
         })
         .collect::<Vec<i32>>());
-    ev["isset"] = json!((0..nv).map(|v| s.is_set(VarLabel::new_usize(v))).collect::<Vec<bool>>());
+    ev["isset"] = json!((0..nv).map(|v| s.is_set(VarLabel::new_usize(lab(v)))).collect::<Vec<bool>>());
     ev["sat"] = json!(s.is_sat());
     ev["hash"] = json!(limbs(s.cur_hash()));
     ev["depth"] = json!(s.verif_depth());
     let (wp, wn) = s.verif_watches();
-    let conv = |w: &[Vec<usize>]| json!(w.iter().map(|l| l.iter().map(|c| c + 1).collect::<Vec<_>>()).collect::<Vec<_>>());
+    // watch lists per variable, in the compact numbering (the lists of labels the CNF never mentions stay empty)
+    let conv = |w: &[Vec<usize>]| json!((0..nv).map(|v| w.get(lab(v)).map(|l| l.iter().map(|c| c + 1).collect::<Vec<_>>()).unwrap_or_default()).collect::<Vec<_>>());
     ev["wp"] = conv(wp);
     ev["wn"] = conv(wn);
 }
@@ -136,6 +139,9 @@ pub fn record_sat(args: &Args) {
     let attack = args.num("attack", 0) != 0;
     let wide = args.num("wide", 0) != 0;
     let regroup = args.num("regroup", 1) != 0;
+    // --labels K: the solver works over K labels; the variables of each recorded CNF sit on scattered labels (two of them
+    // congruent modulo 64, some beyond 63); the record is written in the compact numbering, so the specification is unchanged
+    let nlabels = args.num("labels", 0) as usize;
     let mut out = Out::new(&args.str("out", "-"));
     let mut rng = Rng::new(seed ^ 0x5a7);
     out.emit(json!({"ev": "init", "kind": "sat", "nmax": nmax, "seed": seed}));
@@ -157,9 +163,34 @@ pub fn record_sat(args: &Args) {
                 }
             }
         }
-        let cnf = mk_cnf(&c);
-        let nv = cnf.num_vars();
-        let mut ev = json!({"ev": "snew", "nv": nv, "cnf": stored_json(&cnf)});
+        let nv0 = mk_cnf(&c).num_vars();
+        let emb: Vec<usize> = if nlabels > 0 && nv0 >= 2 {
+            let base = rng.below(6);
+            let mut e = vec![base, base + 64];
+            while e.len() < nv0 {
+                let l = rng.below(nlabels);
+                if !e.contains(&l) {
+                    e.push(l);
+                }
+            }
+            e.truncate(nv0);
+            // monotone: the compact numbering and the labels sort alike (the library orders literals by label, and variable nv0-1,
+            // which the CNF mentions by construction of num_vars, gets the largest label, so every label stays below num_vars)
+            e.sort();
+            e
+        } else {
+            vec![]
+        };
+        let lab = |v: usize| if emb.is_empty() { v } else { emb[v] };
+        let unlab = |l: usize| if emb.is_empty() { l as i64 } else { emb.iter().position(|x| *x == l).map(|i| i as i64).unwrap_or(900 + l as i64) };
+        let cnf = mk_cnf(&c.iter().map(|cl| cl.iter().map(|(v, p)| (lab(*v), *p)).collect()).collect::<Vec<Vec<(usize, bool)>>>());
+        let nv = nv0;
+        // the stored clause list (literal order as the library keeps it), written in the compact numbering
+        let stored: Vec<Vec<i64>> = cnf.clauses().iter().map(|cl| cl.iter().map(|l| { let v = unlab(l.label().value_usize()) + 1; if l.polarity() { v } else { -v } }).collect()).collect();
+        let mut ev = json!({"ev": "snew", "nv": nv, "cnf": stored});
+        if !emb.is_empty() {
+            ev["emb"] = json!(emb);
+        }
         let solver = match guarded(|| SATSolver::new(cnf.clone())) {
             Ok(s) => s,
             Err(m) => {
@@ -177,7 +208,7 @@ pub fn record_sat(args: &Args) {
             Some(s) => s,
         };
         ev["ok"] = json!(true);
-        observe(&s, nv, &mut ev);
+        observe(&s, nv, &emb, &mut ev);
         out.emit(ev);
         if nv == 0 {
             continue;
@@ -198,7 +229,7 @@ pub fn record_sat(args: &Args) {
                     break;
                 }
                 depth -= 1;
-                observe(&s, nv, &mut ev);
+                observe(&s, nv, &emb, &mut ev);
                 let dead = ev.get("panic").is_some();
                 out.emit(ev);
                 if dead {
@@ -213,7 +244,7 @@ pub fn record_sat(args: &Args) {
                     // adversarial driver: falsify an unassigned literal of a clause that has no true literal yet, so that
                     // clauses are driven to unit / falsified through every one of their literals (watched or not)
                     let m = s.verif_model();
-                    let val = |l: &(usize, bool)| m.get(VarLabel::new_usize(l.0)).map(|b| b == l.1);
+                    let val = |l: &(usize, bool)| m.get(VarLabel::new_usize(lab(l.0))).map(|b| b == l.1);
                     let open: Vec<&Vec<(usize, bool)>> = c
                         .iter()
                         .filter(|cl| !cl.iter().any(|l| val(l) == Some(true)) && cl.iter().filter(|l| val(l).is_none()).count() >= 2)
@@ -228,7 +259,7 @@ pub fn record_sat(args: &Args) {
                 }
                 let lit = if p { v as i64 + 1 } else { -(v as i64 + 1) };
                 let mut ev = json!({"ev": "decide", "lit": lit});
-                match guarded(|| s.decide(Literal::new(VarLabel::new_usize(v), p))) {
+                match guarded(|| s.decide(Literal::new(VarLabel::new_usize(lab(v)), p))) {
                     Ok(r) => {
                         ev["res"] = json!(match r {
                             DecisionResult::SAT => "SAT",
@@ -239,7 +270,7 @@ pub fn record_sat(args: &Args) {
                             depth += 1;
                             match guarded(|| {
                                 s.difference_iter()
-                                    .map(|l| if l.polarity() { l.label().value() as i64 + 1 } else { -(l.label().value() as i64 + 1) })
+                                    .map(|l| { let v = unlab(l.label().value_usize()) + 1; if l.polarity() { v } else { -v } })
                                     .collect::<Vec<_>>()
                             }) {
                                 Ok(d) => {
@@ -258,7 +289,7 @@ pub fn record_sat(args: &Args) {
                                 Err(m) => ev["panic"] = json!(format!("difference_iter: {m}")),
                             }
                         }
-                        observe(&s, nv, &mut ev);
+                        observe(&s, nv, &emb, &mut ev);
                         let dead = ev.get("panic").is_some();
                         out.emit(ev);
                         if dead {
@@ -320,7 +351,7 @@ pub fn replay_satvec(args: &Args) {
                 Some(s) => s,
             };
             ev["ok"] = json!(true);
-            observe(&s, nv, &mut ev);
+            observe(&s, nv, &[], &mut ev);
             out.emit(ev);
             let mut depth = 2usize;
             for op in v["ops"].as_array().unwrap() {
@@ -335,7 +366,7 @@ pub fn replay_satvec(args: &Args) {
                         break;
                     }
                     depth -= 1;
-                    observe(&s, nv, &mut ev);
+                    observe(&s, nv, &[], &mut ev);
                     let dead = ev.get("panic").is_some();
                     out.emit(ev);
                     if dead {
@@ -365,7 +396,7 @@ pub fn replay_satvec(args: &Args) {
                                     Err(m) => ev["panic"] = json!(format!("difference_iter: {m}")),
                                 }
                             }
-                            observe(&s, nv, &mut ev);
+                            observe(&s, nv, &[], &mut ev);
                             let dead = ev.get("panic").is_some();
                             out.emit(ev);
                             if dead {
